@@ -10,28 +10,28 @@ Import ListNotations.
    saving a well-formed state with picklable scheduler and loss succeeds and restoring gives back the same state, all
    25 components (configuration, counters, records, generator state, scheduler, loss, id table, dtypes). *)
 Theorem C04_restore_save_any_folder :
-  forall F F_eqb Str Gen Sched Loss str_eqb JsonT PSched PLoss CsvT jenc jdec pick_s unpick_s pick_l unpick_l
-         csv_print csv_parse fresh_gen table_of,
-  json_rt F Str Gen JsonT jenc jdec -> pickle_s_rt Sched PSched pick_s unpick_s -> pickle_l_rt Loss PLoss pick_l unpick_l ->
-  str_eqb_refl Str str_eqb -> F_eqb_spec F F_eqb -> csv_exact F CsvT csv_print csv_parse ->
+  forall F F_eqb Str Gen Sched Loss str_eqb JsonT PSched PLoss CsvT Dg Dg_eqb dg_s dg_l dg_c dg_h jenc jdec pick_s unpick_s
+         pick_l unpick_l csv_print csv_parse fresh_gen table_of,
+  json_rt F Str Gen JsonT Dg jenc jdec -> pickle_s_rt Sched PSched pick_s unpick_s -> pickle_l_rt Loss PLoss pick_l unpick_l ->
+  str_eqb_refl Str str_eqb -> F_eqb_spec F F_eqb -> Dg_eqb_refl Dg Dg_eqb -> csv_exact F CsvT csv_print csv_parse ->
   forall (f : folder F JsonT PSched PLoss CsvT) (s : state F Str Gen Sched Loss),
     wf F Str Gen Sched Loss s -> picklable F Str Gen Sched Loss PSched PLoss pick_s pick_l s ->
-    exists f', save F F_eqb Str Gen Sched Loss JsonT PSched PLoss CsvT jenc pick_s pick_l csv_print f s = SOk F JsonT PSched PLoss CsvT f' /\
-      restore F Str Gen Sched Loss str_eqb JsonT PSched PLoss CsvT jdec unpick_s unpick_l csv_parse fresh_gen table_of f'
+    exists f', save F F_eqb Str Gen Sched Loss JsonT PSched PLoss CsvT Dg dg_s dg_l dg_c dg_h jenc pick_s pick_l csv_print f s = SOk F JsonT PSched PLoss CsvT f' /\
+      restore F Str Gen Sched Loss str_eqb JsonT PSched PLoss CsvT Dg Dg_eqb dg_s dg_l dg_c dg_h jdec unpick_s unpick_l csv_parse fresh_gen table_of f'
               (s_model F Str Gen Sched Loss s) = Ok s.
 Proof. exact restore_save_any_folder. Qed.
 Print Assumptions C04_restore_save_any_folder.
 
 Theorem C04_restore_save_exact_fresh :
-  forall F F_eqb Str Gen Sched Loss str_eqb JsonT PSched PLoss CsvT jenc jdec pick_s unpick_s pick_l unpick_l
-         csv_print csv_parse fresh_gen table_of,
-  json_rt F Str Gen JsonT jenc jdec -> pickle_s_rt Sched PSched pick_s unpick_s -> pickle_l_rt Loss PLoss pick_l unpick_l ->
-  str_eqb_refl Str str_eqb -> F_eqb_spec F F_eqb -> csv_exact F CsvT csv_print csv_parse ->
+  forall F F_eqb Str Gen Sched Loss str_eqb JsonT PSched PLoss CsvT Dg Dg_eqb dg_s dg_l dg_c dg_h jenc jdec pick_s unpick_s
+         pick_l unpick_l csv_print csv_parse fresh_gen table_of,
+  json_rt F Str Gen JsonT Dg jenc jdec -> pickle_s_rt Sched PSched pick_s unpick_s -> pickle_l_rt Loss PLoss pick_l unpick_l ->
+  str_eqb_refl Str str_eqb -> F_eqb_spec F F_eqb -> Dg_eqb_refl Dg Dg_eqb -> csv_exact F CsvT csv_print csv_parse ->
   forall s : state F Str Gen Sched Loss,
     wf F Str Gen Sched Loss s -> picklable F Str Gen Sched Loss PSched PLoss pick_s pick_l s ->
-    exists f', save F F_eqb Str Gen Sched Loss JsonT PSched PLoss CsvT jenc pick_s pick_l csv_print
+    exists f', save F F_eqb Str Gen Sched Loss JsonT PSched PLoss CsvT Dg dg_s dg_l dg_c dg_h jenc pick_s pick_l csv_print
                     (empty_folder F JsonT PSched PLoss CsvT) s = SOk F JsonT PSched PLoss CsvT f' /\
-      restore F Str Gen Sched Loss str_eqb JsonT PSched PLoss CsvT jdec unpick_s unpick_l csv_parse fresh_gen table_of f'
+      restore F Str Gen Sched Loss str_eqb JsonT PSched PLoss CsvT Dg Dg_eqb dg_s dg_l dg_c dg_h jdec unpick_s unpick_l csv_parse fresh_gen table_of f'
               (s_model F Str Gen Sched Loss s) = Ok s.
 Proof. exact restore_save_exact_fresh. Qed.
 Print Assumptions C04_restore_save_exact_fresh.
@@ -39,16 +39,16 @@ Print Assumptions C04_restore_save_exact_fresh.
 (* Same run: when the rows on disk are a prefix of the series being saved the repaired writer still appends in place
    (mode 2: the file is not re-created, only series[k:] is written) and the round trip is exact. *)
 Theorem C04_restore_save_same_run :
-  forall F F_eqb Str Gen Sched Loss str_eqb JsonT PSched PLoss CsvT jenc jdec pick_s unpick_s pick_l unpick_l
-         csv_print csv_parse fresh_gen table_of,
-  json_rt F Str Gen JsonT jenc jdec -> pickle_s_rt Sched PSched pick_s unpick_s -> pickle_l_rt Loss PLoss pick_l unpick_l ->
-  str_eqb_refl Str str_eqb -> F_eqb_spec F F_eqb -> csv_exact F CsvT csv_print csv_parse ->
+  forall F F_eqb Str Gen Sched Loss str_eqb JsonT PSched PLoss CsvT Dg Dg_eqb dg_s dg_l dg_c dg_h jenc jdec pick_s unpick_s
+         pick_l unpick_l csv_print csv_parse fresh_gen table_of,
+  json_rt F Str Gen JsonT Dg jenc jdec -> pickle_s_rt Sched PSched pick_s unpick_s -> pickle_l_rt Loss PLoss pick_l unpick_l ->
+  str_eqb_refl Str str_eqb -> F_eqb_spec F F_eqb -> Dg_eqb_refl Dg Dg_eqb -> csv_exact F CsvT csv_print csv_parse ->
   forall (f : folder F JsonT PSched PLoss CsvT) (s : state F Str Gen Sched Loss),
     wf F Str Gen Sched Loss s -> picklable F Str Gen Sched Loss PSched PLoss pick_s pick_l s ->
     same_run_folder F Str Gen Sched Loss JsonT PSched PLoss CsvT f s ->
     h5_mode F F_eqb (f_h5 F JsonT PSched PLoss CsvT f) (s_sshape F Str Gen Sched Loss s) (s_series F Str Gen Sched Loss s) = 2 /\
-    exists f', save F F_eqb Str Gen Sched Loss JsonT PSched PLoss CsvT jenc pick_s pick_l csv_print f s = SOk F JsonT PSched PLoss CsvT f' /\
-      restore F Str Gen Sched Loss str_eqb JsonT PSched PLoss CsvT jdec unpick_s unpick_l csv_parse fresh_gen table_of f'
+    exists f', save F F_eqb Str Gen Sched Loss JsonT PSched PLoss CsvT Dg dg_s dg_l dg_c dg_h jenc pick_s pick_l csv_print f s = SOk F JsonT PSched PLoss CsvT f' /\
+      restore F Str Gen Sched Loss str_eqb JsonT PSched PLoss CsvT Dg Dg_eqb dg_s dg_l dg_c dg_h jdec unpick_s unpick_l csv_parse fresh_gen table_of f'
               (s_model F Str Gen Sched Loss s) = Ok s.
 Proof. exact restore_save_same_run. Qed.
 Print Assumptions C04_restore_save_same_run.
@@ -57,18 +57,18 @@ Print Assumptions C04_restore_save_same_run.
    text path returns (t') for the table that was printed (t) - the CSV text path is the ONLY place where a value can
    change.  (This is how the one-ulp defect of the default pandas parser, repaired in 524225b, shows in the model.) *)
 Theorem C04_restore_save_up_to_csv :
-  forall F Str Gen Sched Loss str_eqb JsonT PSched PLoss CsvT jenc jdec pick_s unpick_s pick_l unpick_l
-         csv_print csv_parse fresh_gen table_of,
-  json_rt F Str Gen JsonT jenc jdec -> pickle_s_rt Sched PSched pick_s unpick_s -> pickle_l_rt Loss PLoss pick_l unpick_l ->
-  str_eqb_refl Str str_eqb ->
+  forall F Str Gen Sched Loss str_eqb JsonT PSched PLoss CsvT Dg Dg_eqb dg_s dg_l dg_c dg_h jenc jdec pick_s unpick_s
+         pick_l unpick_l csv_print csv_parse fresh_gen table_of,
+  json_rt F Str Gen JsonT Dg jenc jdec -> pickle_s_rt Sched PSched pick_s unpick_s -> pickle_l_rt Loss PLoss pick_l unpick_l ->
+  str_eqb_refl Str str_eqb -> Dg_eqb_refl Dg Dg_eqb ->
   forall w (f : folder F JsonT PSched PLoss CsvT) (s : state F Str Gen Sched Loss) bs bl t t',
     wf F Str Gen Sched Loss s ->
     pick_s (s_sched F Str Gen Sched Loss s) = Some bs -> pick_l (s_loss F Str Gen Sched Loss s) = Some bl ->
     w (f_h5 F JsonT PSched PLoss CsvT f) (s_sshape F Str Gen Sched Loss s) (s_series F Str Gen Sched Loss s) =
       Ok (mkH5 F (s_sshape F Str Gen Sched Loss s) (s_series F Str Gen Sched Loss s)) ->
     frame F Str Gen Sched Loss s = Some t -> csv_parse (csv_print t) = Some t' -> t_ncols F t' = t_ncols F t ->
-    exists f', save_with F Str Gen Sched Loss JsonT PSched PLoss CsvT jenc pick_s pick_l csv_print w f s = SOk F JsonT PSched PLoss CsvT f' /\
-      restore F Str Gen Sched Loss str_eqb JsonT PSched PLoss CsvT jdec unpick_s unpick_l csv_parse fresh_gen table_of f'
+    exists f', save_with F Str Gen Sched Loss JsonT PSched PLoss CsvT Dg dg_s dg_l dg_c dg_h jenc pick_s pick_l csv_print w f s = SOk F JsonT PSched PLoss CsvT f' /\
+      restore F Str Gen Sched Loss str_eqb JsonT PSched PLoss CsvT Dg Dg_eqb dg_s dg_l dg_c dg_h jdec unpick_s unpick_l csv_parse fresh_gen table_of f'
               (s_model F Str Gen Sched Loss s) = Ok (with_table F Str Gen Sched Loss s t').
 Proof. exact restore_after_save_general. Qed.
 Print Assumptions C04_restore_save_up_to_csv.
@@ -76,32 +76,32 @@ Print Assumptions C04_restore_save_up_to_csv.
 (* The writer of the pinned tree (in-place append from the on-disk row count) is exact for an empty folder and for a
    folder holding an earlier checkpoint of the same run ... *)
 Theorem C04_legacy_fresh_or_same_run_exact :
-  forall F Str Gen Sched Loss str_eqb JsonT PSched PLoss CsvT jenc jdec pick_s unpick_s pick_l unpick_l
-         csv_print csv_parse fresh_gen table_of,
-  json_rt F Str Gen JsonT jenc jdec -> pickle_s_rt Sched PSched pick_s unpick_s -> pickle_l_rt Loss PLoss pick_l unpick_l ->
-  str_eqb_refl Str str_eqb -> csv_exact F CsvT csv_print csv_parse ->
+  forall F Str Gen Sched Loss str_eqb JsonT PSched PLoss CsvT Dg Dg_eqb dg_s dg_l dg_c dg_h jenc jdec pick_s unpick_s
+         pick_l unpick_l csv_print csv_parse fresh_gen table_of,
+  json_rt F Str Gen JsonT Dg jenc jdec -> pickle_s_rt Sched PSched pick_s unpick_s -> pickle_l_rt Loss PLoss pick_l unpick_l ->
+  str_eqb_refl Str str_eqb -> Dg_eqb_refl Dg Dg_eqb -> csv_exact F CsvT csv_print csv_parse ->
   forall (f : folder F JsonT PSched PLoss CsvT) (s : state F Str Gen Sched Loss),
     wf F Str Gen Sched Loss s -> picklable F Str Gen Sched Loss PSched PLoss pick_s pick_l s ->
     f_h5 F JsonT PSched PLoss CsvT f = None \/ same_run_folder F Str Gen Sched Loss JsonT PSched PLoss CsvT f s ->
-    exists f', save_legacy F Str Gen Sched Loss JsonT PSched PLoss CsvT jenc pick_s pick_l csv_print f s = SOk F JsonT PSched PLoss CsvT f' /\
-      restore F Str Gen Sched Loss str_eqb JsonT PSched PLoss CsvT jdec unpick_s unpick_l csv_parse fresh_gen table_of f'
+    exists f', save_legacy F Str Gen Sched Loss JsonT PSched PLoss CsvT Dg dg_s dg_l dg_c dg_h jenc pick_s pick_l csv_print f s = SOk F JsonT PSched PLoss CsvT f' /\
+      restore F Str Gen Sched Loss str_eqb JsonT PSched PLoss CsvT Dg Dg_eqb dg_s dg_l dg_c dg_h jdec unpick_s unpick_l csv_parse fresh_gen table_of f'
               (s_model F Str Gen Sched Loss s) = Ok s.
 Proof. exact legacy_restore_save_fresh_or_same_run. Qed.
 Print Assumptions C04_legacy_fresh_or_same_run_exact.
 
 (* ... hence for any number of checkpoints of one run written over each other ... *)
 Theorem C04_legacy_chain_exact :
-  forall F Str Gen Sched Loss str_eqb JsonT PSched PLoss CsvT jenc jdec pick_s unpick_s pick_l unpick_l
-         csv_print csv_parse fresh_gen table_of,
-  json_rt F Str Gen JsonT jenc jdec -> pickle_s_rt Sched PSched pick_s unpick_s -> pickle_l_rt Loss PLoss pick_l unpick_l ->
-  str_eqb_refl Str str_eqb -> csv_exact F CsvT csv_print csv_parse ->
+  forall F Str Gen Sched Loss str_eqb JsonT PSched PLoss CsvT Dg Dg_eqb dg_s dg_l dg_c dg_h jenc jdec pick_s unpick_s
+         pick_l unpick_l csv_print csv_parse fresh_gen table_of,
+  json_rt F Str Gen JsonT Dg jenc jdec -> pickle_s_rt Sched PSched pick_s unpick_s -> pickle_l_rt Loss PLoss pick_l unpick_l ->
+  str_eqb_refl Str str_eqb -> Dg_eqb_refl Dg Dg_eqb -> csv_exact F CsvT csv_print csv_parse ->
   forall (l : list (state F Str Gen Sched Loss)) (s : state F Str Gen Sched Loss),
     chain F Str Gen Sched Loss PSched PLoss pick_s pick_l (s :: l) ->
     forall f : folder F JsonT PSched PLoss CsvT,
     f_h5 F JsonT PSched PLoss CsvT f = None \/ same_run_folder F Str Gen Sched Loss JsonT PSched PLoss CsvT f s ->
     let z := last l s in
-    restore F Str Gen Sched Loss str_eqb JsonT PSched PLoss CsvT jdec unpick_s unpick_l csv_parse fresh_gen table_of
-            (saves_legacy F Str Gen Sched Loss JsonT PSched PLoss CsvT jenc pick_s pick_l csv_print (s :: l) f)
+    restore F Str Gen Sched Loss str_eqb JsonT PSched PLoss CsvT Dg Dg_eqb dg_s dg_l dg_c dg_h jdec unpick_s unpick_l csv_parse fresh_gen table_of
+            (saves_legacy F Str Gen Sched Loss JsonT PSched PLoss CsvT Dg dg_s dg_l dg_c dg_h jenc pick_s pick_l csv_print (s :: l) f)
             (s_model F Str Gen Sched Loss z) = Ok z.
 Proof. exact legacy_chain_exact. Qed.
 Print Assumptions C04_legacy_chain_exact.
@@ -132,11 +132,11 @@ Print Assumptions C04_same_run_prefix.
 (* the two models together: a run of the calibrator model writing its checkpoints into one folder with the pinned
    writer - the next checkpoint restores exactly *)
 Theorem C04_model_run_same_folder_exact :
-  forall F Str Gen str_eqb JsonT PLoss CsvT jenc jdec pick_l unpick_l csv_print csv_parse fresh_gen table_of gen_at cls_name
-         model lossf loss_leb rounds0 propose draws agent_actions plan,
+  forall F Str Gen str_eqb JsonT PLoss CsvT Dg Dg_eqb dg_s dg_l dg_c dg_h jenc jdec pick_l unpick_l csv_print csv_parse fresh_gen
+         table_of gen_at cls_name model lossf loss_leb rounds0 propose draws agent_actions plan,
   (forall s ps ls, length (propose s ps ls) = s_bsize s) ->
-  json_rt F Str Gen JsonT jenc jdec -> pickle_l_rt unit PLoss pick_l unpick_l -> str_eqb_refl Str str_eqb ->
-  csv_exact F CsvT csv_print csv_parse ->
+  json_rt F Str Gen JsonT Dg jenc jdec -> Dg_eqb_refl Dg Dg_eqb -> pickle_l_rt unit PLoss pick_l unpick_l ->
+  str_eqb_refl Str str_eqb -> csv_exact F CsvT csv_print csv_parse ->
   forall tpl cfg0 samplers scheduler s0 ops d f,
     Calibrator.construct (list F) (list F) F cfg0 samplers scheduler = inl s0 ->
     disk _ _ _ (run (list F) (list F) F model lossf loss_leb rounds0 propose draws agent_actions plan ops s0) = Some d ->
@@ -145,34 +145,47 @@ Theorem C04_model_run_same_folder_exact :
     let s := of_core F Str Gen gen_at cls_name tpl
                (live _ _ _ (run (list F) (list F) F model lossf loss_leb rounds0 propose draws agent_actions plan ops s0)) in
     wf F Str Gen (sched F) unit s -> pick_sched F (s_sched _ _ _ _ _ s) <> None -> pick_l tt <> None ->
-    exists f', save_legacy F Str Gen (sched F) unit JsonT (sched F) PLoss CsvT jenc (pick_sched F) pick_l csv_print f s = SOk _ _ _ _ _ f' /\
-               restore F Str Gen (sched F) unit str_eqb JsonT (sched F) PLoss CsvT jdec (fun b => Some b) unpick_l csv_parse
-                       fresh_gen table_of f' (s_model _ _ _ _ _ s) = Ok s.
+    exists f', save_legacy F Str Gen (sched F) unit JsonT (sched F) PLoss CsvT Dg dg_s dg_l dg_c dg_h jenc (pick_sched F) pick_l csv_print f s
+                 = SOk _ _ _ _ _ f' /\
+               restore F Str Gen (sched F) unit str_eqb JsonT (sched F) PLoss CsvT Dg Dg_eqb dg_s dg_l dg_c dg_h jdec (fun b => Some b)
+                       unpick_l csv_parse fresh_gen table_of f' (s_model _ _ _ _ _ s) = Ok s.
 Proof. exact model_run_same_folder_exact. Qed.
 Print Assumptions C04_model_run_same_folder_exact.
 
 (* "whenever calibrate() returns with a saving folder set, the folder holds the state calibrate() returned with":
-   any n (0 included after C04-calibrate-zero-checkpoint.patch), early stop included, any scheduler for which the call
-   returns at all (with an RL scheduler the checkpoint raises, so calibrate() does not return). *)
+   every n >= 1, early stop included, any scheduler for which the call returns at all (with an RL scheduler the checkpoint
+   raises, so calibrate() does not return) ... *)
 Theorem C04_calibrate_leaves_current_checkpoint :
   forall Param Series LossV model lossf loss_leb rounds0 propose draws agent_actions plan n s s' ret,
     c_saving (cfg Param Series LossV (live Param Series LossV s)) = true ->
-    calibrate Param Series LossV model lossf loss_leb rounds0 propose draws agent_actions plan n s = (s', None, ret) ->
+    calibrate Param Series LossV model lossf loss_leb rounds0 propose draws agent_actions plan (S n) s = (s', None, ret) ->
     disk Param Series LossV s' = Some (live Param Series LossV s').
 Proof. exact calibrate_leaves_current_checkpoint. Qed.
 Print Assumptions C04_calibrate_leaves_current_checkpoint.
 
+(* ... but NOT for n = 0 (finding calibrate-zero-no-checkpoint): calibrate(0) on a fresh calibrator returns normally,
+   has changed the calibrator (samplers reseeded, generator advanced) and writes nothing. *)
+Theorem C04_calibrate_zero_checkpoint_refuted :
+  exists s s' ret, c_saving (cfg _ _ _ (live _ _ _ s)) = true /\
+    calibrate nat nat nat (fun p _ => p) (fun _ => 0) Nat.leb (fun _ _ => false) (fun _ _ _ => [0]) (fun _ => 7%Z) (fun _ => 0) NoFault 0 s
+      = (s', None, ret) /\
+    live _ _ _ s' <> live _ _ _ s /\ disk _ _ _ s' = None.
+Proof. exact calibrate_zero_checkpoint_refuted. Qed.
+Print Assumptions C04_calibrate_zero_checkpoint_refuted.
+
 (* Finding (b): a scheduler that cannot be pickled (the RL scheduler: thread, queues, locks).  create_checkpoint raises
-   after the JSON was rewritten and the scheduler pickle truncated: whatever the folder held, it can no longer be
-   restored (with either series writer). *)
+   with the scheduler pickle truncated; the json (written last since 8564019) is still the previous one, and whatever
+   the folder held it can no longer be restored (digest mismatch, or EOF on the truncated pickle) - with either writer. *)
 Theorem C04_save_unpicklable :
-  forall F Str Gen Sched Loss str_eqb JsonT PSched PLoss CsvT jenc jdec pick_s unpick_s pick_l unpick_l
-         csv_print csv_parse fresh_gen table_of,
-  json_rt F Str Gen JsonT jenc jdec ->
-  forall w (f : folder F JsonT PSched PLoss CsvT) (s : state F Str Gen Sched Loss) name,
+  forall F Str Gen Sched Loss str_eqb JsonT PSched PLoss CsvT Dg Dg_eqb dg_s dg_l dg_c dg_h jenc jdec pick_s unpick_s
+         pick_l unpick_l csv_print csv_parse fresh_gen table_of,
+  forall w (f : folder F JsonT PSched PLoss CsvT) (s : state F Str Gen Sched Loss),
     pick_s (s_sched F Str Gen Sched Loss s) = None ->
-    exists f', save_with F Str Gen Sched Loss JsonT PSched PLoss CsvT jenc pick_s pick_l csv_print w f s = SRaise F JsonT PSched PLoss CsvT ExPickle f' /\
-      exists e, restore F Str Gen Sched Loss str_eqb JsonT PSched PLoss CsvT jdec unpick_s unpick_l csv_parse fresh_gen table_of f' name = Raise e.
+    exists f', save_with F Str Gen Sched Loss JsonT PSched PLoss CsvT Dg dg_s dg_l dg_c dg_h jenc pick_s pick_l csv_print w f s
+                 = SRaise F JsonT PSched PLoss CsvT ExPickle f' /\
+      f_json F JsonT PSched PLoss CsvT f' = f_json F JsonT PSched PLoss CsvT f /\
+      forall name, exists e, restore F Str Gen Sched Loss str_eqb JsonT PSched PLoss CsvT Dg Dg_eqb dg_s dg_l dg_c dg_h jdec unpick_s
+                                     unpick_l csv_parse fresh_gen table_of f' name = Raise e.
 Proof. exact save_unpicklable. Qed.
 Print Assumptions C04_save_unpicklable.
 
@@ -197,7 +210,7 @@ Print Assumptions C04_sqlite_unpicklable_writes_nothing.
 (* ------------------------------------------------------------------ non-vacuity *)
 (* the hypotheses are satisfiable: the token instantiation meets every contract, ex_A/ex_A1/ex_B are well-formed *)
 Example C04_contracts_satisfiable :
-  json_rt TF TStr TGen tjparams (fun p => p) (fun p => Some p) /\ pickle_s_rt TObj Z t_pick t_unpick /\
+  json_rt TF TStr TGen tjparams tdig (fun p => p) (fun p => Some p) /\ pickle_s_rt TObj Z t_pick t_unpick /\
   csv_exact TF tcsv (fun t => t) (fun t => Some t) /\ F_eqb_spec Z Z.eqb /\ str_eqb_refl nat Nat.eqb /\
   wf _ _ _ _ _ ex_A /\ wf _ _ _ _ _ ex_A1 /\ wf _ _ _ _ _ ex_B /\
   picklable _ _ _ _ _ _ _ t_pick t_pick ex_A.
@@ -224,9 +237,9 @@ Example C04_ex_legacy_stale :
   let '(f, ms) := run_saves (h5_write_legacy TF) true T_empty [ex_A; ex_B] in
   ms = [1; 2] /\ match T_restore f 3 with Ok s => state_diff s ex_B = [20] | Raise _ => False end.
 Proof. vm_compute. auto. Qed.
-(* an RL scheduler: the save raises, the folder (which held ex_A) is no longer restorable, FileNotFound/EOF class 3 *)
-Example C04_ex_unpicklable : check_case (mkCC [ex_A; ex_RL] 3 [1; 0] 3 None) = true.
-Proof. vm_compute. reflexivity. Qed.
+(* an RL scheduler: the save raises; a folder that held ex_A fails the digest check (class 12), an empty one has no json (2) *)
+Example C04_ex_unpicklable : check_case (mkCC [ex_A; ex_RL] 3 [1; 0] 12 None) = true /\ check_case (mkCC [ex_RL] 3 [0] 2 None) = true.
+Proof. vm_compute. auto. Qed.
 (* a wrong model name is refused *)
 Example C04_ex_model_name : check_case (mkCC [ex_A] 4 [1] 8 None) = true.
 Proof. vm_compute. reflexivity. Qed.
@@ -234,10 +247,4 @@ Proof. vm_compute. reflexivity. Qed.
 Example C04_ex_sqlite : check_sql (mkSQ [ex_A; ex_B] [1; 1] 0 (Some ex_B) true true) = true /\
                         check_sql (mkSQ [ex_A; ex_RL] [1; 0] 0 (Some ex_A) true true) = true /\
                         check_sql (mkSQ [] [] 9 None true true) = true.
-Proof. vm_compute. auto. Qed.
-(* a calibrate(0) on a constructed round-robin calibrator with a saving folder returns and has checkpointed *)
-Example C04_ex_calibrate_zero :
-  let s0 := mkSt nat nat nat (mkCore nat nat nat (mkCfg 1 None false true) [] [] [] [] [] 0 0 (RR nat [mkS 0 0 1 0 None] 0) 0 [(0, 0)] 0 0) None in
-  let '(s', e, _) := calibrate nat nat nat (fun p _ => p) (fun _ => 0) Nat.leb (fun _ _ => false) (fun _ _ _ => [0]) (fun _ => 0%Z) (fun _ => 0) NoFault 0 s0 in
-  e = None /\ disk _ _ _ s' = Some (live _ _ _ s').
 Proof. vm_compute. auto. Qed.
